@@ -127,7 +127,8 @@ def eval_case(case):
         with_gen = case["i"] % 3 == 2     # station-count sentence also with local generation
         full = scen.gen_scenario(rng, strategy="distributed", n_gc=rng.choice([1, 2, 2, 3]), feasible=True,
                                  features={"generation": with_gen, "v2g": False, "battery": False, "window": False,
-                                           "window_signal": False, "number_cs": True if with_gen else None},
+                                           "window_signal": False, "number_cs": True if with_gen else None,
+                                           "sub_strategies": False},
                                  max_steps=40)
         if not with_gen:
             full["scenario"]["events"]["local_generation"] = {}
